@@ -1357,14 +1357,19 @@ pub fn gen_wide(rng: &mut Rng, width: usize) -> (World, ProblemSpec) {
 /// Deep chain family: package i requires package i+1 (a few candidates each); recursion depth in the subject must
 /// not grow with the length of a dependency chain.
 pub fn gen_chain(rng: &mut Rng, len: usize) -> (World, ProblemSpec) {
+    gen_chain_kind(rng, len, false)
+}
+
+/// `cheap`: only the variants whose solve is linear in the length (no dead end, one candidate per link mostly).
+pub fn gen_chain_kind(rng: &mut Rng, len: usize, cheap: bool) -> (World, ProblemSpec) {
     let mut w = World::default();
     let mut next_s = 0u32;
     // variants: every package hinted (the whole chain is encoded in one pass: thousands of task results in one encode
     // call), more candidates per link, and a dead end (the last link needs a package without candidates, so that the
     // conflict is found after a propagation round of `len` forced assignments)
-    let hint_all = rng.chance(1, 3);
-    let fat = rng.chance(1, 3);
-    let dead_end = rng.chance(1, 4);
+    let hint_all = rng.chance(1, if cheap { 2 } else { 3 });
+    let fat = rng.chance(1, 3) && !cheap;
+    let dead_end = rng.chance(1, 4) && !cheap;
     // the expensive variants stay shorter: a dead end below a chain of multi-candidate links makes the solver climb back
     // link by link, which is legitimate work that grows with the cube of the length (every newly tried candidate restarts the search, and every restart re-decides the whole chain)
     let len = if fat && dead_end { len.min(300) } else if dead_end { len.min(600) } else if fat { len.min(1300) } else { len };
